@@ -4,8 +4,10 @@ import (
 	"bytes"
 	"encoding/json"
 	"fmt"
+	"math/big"
 
 	"github.com/invopop/gobl/bill"
+	"github.com/invopop/gobl/num"
 )
 
 // Edits are input edits applied to an already calculated invoice before it is
@@ -150,4 +152,61 @@ func RecalcAfterEdit(inv *bill.Invoice, edit int) (a *bill.Invoice, diff string,
 		diff = fmt.Sprintf("after %s: with the stored figures …%s… / from the inputs alone …%s…", e.Name, ja[lo:hi(ja)], jb[lo:hi(jb)])
 	}
 	return ca, diff, true
+}
+
+// AfterRemoval gives a re-read copy of a calculated invoice on which
+// Invoice.RemoveIncludedTaxes has been called (ok=false: prices include no
+// tax, or the removal fails).  The copy is a calculated document like any
+// other: whatever C03 says of presented figures holds of it.
+func AfterRemoval(inv *bill.Invoice) (a *bill.Invoice, ok bool) {
+	if inv.Tax == nil || inv.Tax.PricesInclude == "" {
+		return nil, false
+	}
+	a, err := cloneInvoice(inv)
+	if err != nil {
+		return nil, false
+	}
+	if err := a.RemoveIncludedTaxes(); err != nil {
+		return nil, false
+	}
+	return a, true
+}
+
+// TooLargeForRemoval: RemoveIncludedTaxes raises every price and fixed amount
+// by two decimals and divides; beyond 2^52 units at the finest precision
+// present plus two the float detour of num.Amount is no longer exact (C05's
+// domain) and int64 can overflow.  (Same judgement as props/c17.)
+func TooLargeForRemoval(inv *bill.Invoice) bool {
+	maxExp := uint32(0)
+	var all []num.Amount
+	note := func(a num.Amount) {
+		all = append(all, a)
+		if a.Exp() > maxExp {
+			maxExp = a.Exp()
+		}
+	}
+	if inv.Totals != nil {
+		note(inv.Totals.Sum)
+		note(inv.Totals.TotalWithTax)
+	}
+	for _, l := range inv.Lines {
+		if l.Item != nil && l.Item.Price != nil {
+			note(*l.Item.Price)
+		}
+		if l.Sum != nil {
+			note(*l.Sum)
+		}
+		if l.Total != nil {
+			note(*l.Total)
+		}
+	}
+	lim := new(big.Int).Lsh(big.NewInt(1), 52)
+	for _, a := range all {
+		v := new(big.Int).Abs(big.NewInt(a.Value()))
+		v.Mul(v, new(big.Int).Exp(big.NewInt(10), big.NewInt(int64(maxExp+2-a.Exp())), nil))
+		if v.Cmp(lim) >= 0 {
+			return true
+		}
+	}
+	return false
 }
